@@ -77,6 +77,28 @@ def run_inter(ctx, pt):
             rt(ctx, c + '/with-another-live-instance', o, blk) if False else rt(ctx, c, o, blk)
 
 
+def pts_manykeys(tier):
+    return [('aes128', 9000), ('des', 9000), ('tf256', 9000), ('aes256', 4500)] if tier == 'thorough' else []
+
+
+def run_manykeys(ctx, pt):
+    """one process that uses thousands of distinct keys (thorough only): the object made for the first key again afterwards
+    still inverts what the first object did"""
+    c, N = pt
+    n = F.KEYLEN[c]
+    k0 = expander(n, 21)
+    blk = F.fixed_blocks(c)[2]
+    A1 = F.make(c, k0)
+    c0 = A1.enc(blk)
+    for i in range(1, N + 1):
+        o = F.make(c, (int.from_bytes(k0, 'big') ^ (i * 0x9e3779b97f4a7c15)).to_bytes(n + 8, 'big')[-n:])
+        x = o.enc(blk)
+        if i % 1000 == 0:
+            ctx.eq('C03/%s/dec-of-enc' % c, ctx.attempt(o.dec, x), ('ok', blk))
+    A2 = F.make(c, k0)
+    ctx.eq('C03/%s/after-many-keys-in-one-process' % c, (ctx.attempt(A2.dec, c0), ctx.attempt(A2.enc, blk), ctx.attempt(A1.dec, c0)), (('ok', blk), ('ok', c0), ('ok', blk)))
+
+
 # ---- component pairs on their entire (or enumerated) domain -----------------------------
 
 def pts_components(tier):
@@ -204,9 +226,11 @@ def run_components(ctx, pt):
 def subchecks():
     return [
         Sub('roundtrip', pts_roundtrip, run_roundtrip, engine='P', exhaustive=False,
-            bound='per cipher (AES-128/192/256, DES, TDEA, Serpent, Threefish-256/512/1024): key family x 3 blocks, 3 keys x block family, Threefish tweak family: dec(enc(B))==B, enc(dec(B))==B, lengths (quick: every 4th family member)'),
+            bound='per cipher (AES-128/192/256, DES, TDEA, Serpent, Threefish-256/512/1024): key family (DES/TDEA: incl. the 72 keys written over the weak-key byte alphabet) x 3 blocks, 3 keys x block family, Threefish tweak family: dec(enc(B))==B, enc(dec(B))==B, lengths (quick: every 4th family member)'),
         Sub('interleaved-instances', pts_inter, run_inter, engine='H',
             bound='every ordered pair of the 9 cipher configurations: A constructed, then B, round trips on A, B, A'),
+        Sub('many-keys', pts_manykeys, run_manykeys, engine='H', exhaustive=False, chunk=1,
+            bound='thorough only: 9000 distinct keys (AES-256: 4500) used one after the other in one process for AES-128, DES, Threefish-256, then the first key again'),
         Sub('components', pts_components, run_components, engine='D',
             bound='Sbox/Sbox_inv all 256 values in all 16 positions; Shift/InvShiftRows on tag states; Mix/InvMixColumns on every single-active-byte state and two-active-byte states over {01,02,80,FF}^2; DES IP/IPinv, Serpent _IP/_FP, _L/_Linv on single-bit family + patterns; Serpent _S/_Sinv 8 boxes x 32 positions x 16 values; rol/ror every width 1..10 (thorough 12) x amount x value and widths 28,32,64,128 x every amount x single-bit family; Salsa/ChaCha index maps'),
     ]
